@@ -460,6 +460,13 @@ func c02One(r *core.Run, fam string, s gen.Signed, aux int, c *choose.Ctx) {
 		return
 	}
 	r.Evaluations.Add(1)
+	var am adapt.ErrArgumentMutated
+	if errors.As(e, &am) {
+		// the caller's own values (here: an options mapping it received in another structure, key material, lease
+		// lists) are not the constructor's to rewrite: the structure they came from no longer encodes as it did
+		r.Violate("C02|encode|"+entry+"|constructor-changed-its-argument["+am.What+"]", fmt.Sprintf("%s modified the %s it was given (deep snapshot of the argument before and after the call differs) (%s)", entry, am.What, c.Describe()), cs)
+		return
+	}
 	if e != nil {
 		// a constructor may refuse a legal model value (its own policy: C14 compares constructor
 		// and validator rules); the encode direction only speaks about values it does build
@@ -498,11 +505,16 @@ func runC02(r *core.Run) {
 		}
 	}
 	independencePass(r, "C02")
+	c02Mutators(r)
 	r.Sample(map[string]any{"family": "LeaseSet2", "variation": "options=a='' + offline transient P-256", "directions": "decode+encode"})
 	r.Sample(map[string]any{"family": "KeysAndCert", "variation": "sig P-384 / crypto ElGamal, KEY certificate with 5 extra payload bytes"})
 }
 
 func replayC02(r *core.Run, c core.Case) {
+	if c.Kind == "mutators" {
+		c02Mutators(r)
+		return
+	}
 	if c.Kind == "independence" {
 		replayIndependence(r, "C02", c)
 		return
